@@ -151,6 +151,28 @@ def template(r):
     return f'{{ u {{ {" ".join(parts)} {extra} }} }}\nfragment X on {xt} {{ {alias}: {x_inner} }}'
 
 
+def list_template(r):
+    """Two list-of-composite fields under one response name, under exclusive object parents (or the same parent), whose
+    sub-selections agree in everything the name / argument comparison sees and differ at most in what SameResponseShape
+    sees (leaf type, nullability) - inline or through fragments defined after the operation."""
+    t1, t2 = r.choice([('A', 'B'), ('B', 'A'), ('A', 'A')])
+    alias = r.choice(['f', 'k', 'lst'])
+    x = r.choice(['x', 's', 'id'])
+    leafs = ['same', 'name', 'nn', 'id']
+    in1 = r.choice(leafs)
+    in2 = in1 if r.random() < 0.3 else r.choice(leafs)
+    deep = r.random() < 0.3
+    s1 = f'{{ other {{ {x}: {in1} }} }}' if deep else f'{{ {x}: {in1} }}'
+    s2 = f'{{ other {{ {x}: {in2} }} }}' if deep else f'{{ {x}: {in2} }}'
+    parent = r.choice(['u', 'i', 'us'])
+    if r.random() < 0.5:
+        return f'{{ {parent} {{ ... on {t1} {{ {alias}: list {s1} }} ... on {t2} {{ {alias}: list {s2} }} }} }}'
+    order = r.random() < 0.5
+    q = f'{{ {parent} {{ ... on {t1} {{ {alias}: list {{ ...L1 }} }} ... on {t2} {{ {alias}: list {{ ...L2 }} }} }} }}'
+    frs = f'fragment L1 on I {s1}\nfragment L2 on I {s2}'
+    return (q + '\n' + frs) if order else (frs + '\n' + q)
+
+
 def arg_template(r):
     """Two selections of one field whose input-object arguments differ at most in key order."""
     fam = r.choice(FAMILIES)
@@ -260,8 +282,10 @@ def run_shard(ctx):
             text, origin = Gen(rng).doc(), "gen"
         elif m < 0.82:
             text, origin = template(rng), "template:exclusive-then-shared-fragment"
-        elif m < 0.9:
+        elif m < 0.87:
             text, origin = arg_template(rng), "template:reordered-input-object-arguments"
+        elif m < 0.92:
+            text, origin = list_template(rng), "template:list-fields-under-one-response-name"
         else:
             text, origin = add_cycle(rng, Gen(rng).doc()), "gen+cycle"
         check(ctx, text, origin)
